@@ -2,9 +2,9 @@ SPECIFICATION Spec
 CONSTANTS
   Names = {"A", "B"}
   Variant = "current"
-  MaxDefs = 3
+  MaxDefs = 2
   MaxGets = 2
-  InjLen = 0
+  InjLen = 2
   Emit = TRUE
 INVARIANTS InjectConsistent StackEmptyWhenQuiet Precedence NoRecursion OnceBuilt LazyFactories
 VIEW View
